@@ -1,7 +1,8 @@
 """C18 - the LFU cache is a bounded least-frequently-used map.
 
 proof:           coq/theories/Lfu/{LfuModel,LfuSpec,LfuInv,LfuSpecProps,LfuProofs,
-                 LfuRtModel,LfuRtProofs,LfuHeapModel,LfuHeapProofs}.v, Properties/C18.v
+                 LfuRtModel,LfuRtProofs,LfuHeapModel,LfuHeapProofs,LfuConcModel,LfuConcProofs,
+                 LfuConcLin,LfuAuxModel,LfuAuxProofs}.v, Properties/C18.v
 correspondence:  (a) exhaustive get/set sequences: per-step observations (get
                  output + the walked linked structure) folded into a checksum,
                  summed per first-op group, computed by the model inside Coq
@@ -24,9 +25,27 @@ correspondence:  (a) exhaustive get/set sequences: per-step observations (get
                  no eviction possible; incl. a deterministic forced overlap with a
                  key that parks inside the critical section) against the
                  sequential MODEL on the merged sequence (keyview_sx).
+                 (g) threads, interleaving semantics (LfuConcModel.v): deterministic forced
+                 schedules (thread 1 parked right BEFORE taking the lock by a recording lock,
+                 or INSIDE its critical section by a key whose first hash waits; thread 2
+                 runs / blocks meanwhile): the lock-acquisition log, the values returned per
+                 thread and the full pointer graph of the shared heap against conc_sx
+                 (exec of the small-step semantics under the corresponding schedule).
+                 (h) report-type traces against the POINTER-LEVEL report-type model
+                 (LfuAuxModel.hset_rt): pointer graph with content checksums after every step.
+                 (i) get_sorted_cache_keys / get_average_frequency after every step
+                 (LfuAuxModel.h_sorted_keys / h_avg_freq; dict order = list order).
+                 (j) arbitrary hashable keys (1 / 1.0 / True, str, bytes, tuples, frozensets,
+                 None, big ints, colliding hashes) against the model on key equality classes.
 direct oracle:   an independent reference LFU (victim = min (uses, time of
                  reaching that count)), structural consistency of the linked
-                 lists, lock-discipline monitor, threaded workload.
+                 lists, heap-access monitor (EVERY read/write of a CacheNode / FreqNode field,
+                 of LFUCache.cache / .capacity / .freq_link_head and every key-table operation
+                 made by get/set happens while the calling thread holds the lock: the
+                 hypothesis of C18_conc_linearizable, counted in the evidence as
+                 lock_discipline.heap_accesses_outside_lock = 0), threaded workload (one round
+                 under the monitor), forced schedules linearizable in lock-acquisition order,
+                 DummyLFU stores nothing.
 """
 import itertools
 import multiprocessing as mp
@@ -40,11 +59,12 @@ THEOREM_FILE = "Properties/C18.v"
 COQCHK = ["Properties.C18"]
 RULE = ("exhaustive: every sequence of get/set over 3 keys of length <= L for capacity 1..3 (value written by the t-th op is t); "
         "random: sequences of length <= 200 over <= 8 keys, capacity 1..8; report-type traces: length <= 60 over <= 6 keys, capacity 1..5, "
-        "3 report types, values 0..4; a case is non-trivial when it contains at least one eviction "
+        "3 report types, values 0..4; statistics traces: length <= 40; arbitrary-key traces: length <= 60 over <= 27 keys of mixed types, capacity 1..6; "
+        "forced schedules: 9 two-thread scenarios + 4 forced overlaps; a case is non-trivial when it contains at least one eviction "
         "or one successful get; distinct = distinct (capacity, op sequence)")
 TRUSTED = ["LFUCache.set with report_type: get returns the live defaultdict object (a later set mutates it); the model and the harness observe its value at the time of the get",
-           "thread scheduling / the GIL are not modelled; the concurrency clause is tied to the sequential theorems dynamically: lock-discipline monitor, threaded stress run, and linearizability of the returned values / final contents against the sequential model on interleaving-independent workloads incl. a deterministic forced overlap (partial)"]
-ASSUMPTIONS = ["keys and values are integers in the model (the cache never inspects them beyond hashing/equality)"]
+           "concurrency: C18_conc_linearizable / C18_conc_every_state are proved for EVERY schedule of the interleaving semantics LfuConcModel.v, whose calls have the shape 'acquire; statement-level body; release' with one shared-heap access per step; that lfucache.py has this shape (every heap access of get/set inside the lock: C18_conc_accesses_under_lock) is OBSERVED on every run by the heap-access monitor (evidence: lock_discipline.heap_accesses_outside_lock = 0), not proved about the Python text; threading.Lock's mutual exclusion is assumed (no atomicity of individual accesses is needed: only the lock holder touches the heap); LFUCache.__contains__ is lock-free by design (one dict lookup) and outside these theorems"]
+ASSUMPTIONS = ["keys and values are integers in the model (the cache never inspects them beyond hashing/equality); arbitrary hashable keys are compared through their equality classes (stream j)"]
 
 M63 = (1 << 63) - 1
 
@@ -91,7 +111,7 @@ def walk(cache):
     return out
 
 
-def graph_ints(cache, limit=100000):
+def graph_ints(cache, limit=100000, content=lambda x: x):
     """The FULL pointer graph reachable from freq_link_head as a flat list of ints,
     objects renamed canonically in walk order (-1 = None, -2 = an object outside the
     walk); mirror of LfuHeapShow.graph_ints."""
@@ -125,7 +145,7 @@ def graph_ints(cache, limit=100000):
     for f, cs in zip(fobjs, per_f):
         out += [f.freq, ref(fidx, f.pre), ref(fidx, f.nxt), ref(cidx, f.cache_head), ref(cidx, f.cache_tail), len(cs)]
         for cn in cs:
-            out += [getattr(cn.key, "key_id", cn.key), cn.content, ref(fidx, cn.freq_node), ref(cidx, cn.pre), ref(cidx, cn.nxt),
+            out += [getattr(cn.key, "key_id", cn.key), content(cn.content), ref(fidx, cn.freq_node), ref(cidx, cn.pre), ref(cidx, cn.nxt),
                     ref(cidx, cache.cache.get(cn.key))]
     return out
 
@@ -435,6 +455,26 @@ def snap(content):
     return ["val", content]
 
 
+def content_code(content):
+    """mirror of LfuAuxShow.content_code (63-bit wrap-around checksums)"""
+    if isinstance(content, dict):
+        a = 2
+        for r, vs in content.items():
+            b = mix(a, RT_IDS[r] + 10)
+            for v in vs:
+                b = mix(b, v + 100)
+            a = mix(b, 7)
+        return a
+    return mix(1, content + 50)
+
+
+def graph_code(cache):
+    a = 0
+    for z in graph_ints(cache, content=content_code):
+        a = mix(a, z)
+    return a
+
+
 def gen_random_rt(rng, maxlen):
     nk = rng.choice([2, 3, 4, 6])
     cap = rng.randint(1, 5)
@@ -469,6 +509,8 @@ def run_impl_rt(cap, ops):
     c = LFUCache(cap)
     ref = RefLFU(cap)
     outs, states, err = [], [], None
+    gcodes = run_impl_rt.gcodes = []
+    run_impl_rt.graph = None
     flags = {"evicted": False, "hit": False, "raised": False}
     for i, (kind, k, v, rt) in enumerate(ops):
         try:
@@ -516,6 +558,8 @@ def run_impl_rt(cap, ops):
                 if raised != exp_raise and err is None:
                     err = "step %d: set(%r, %r, %r) raised=%r, expected raised=%r" % (i, k, rt, v, raised, exp_raise)
             st = walk(c)
+            gcodes.append(graph_code(c))
+            run_impl_rt.graph = graph_ints(c, content=content_code)
         except Exception as e:
             return outs, states, "step %d: %s: %s" % (i, type(e).__name__, e), flags
         states.append([[f, [[kk, snap(cc)] for kk, cc in items]] for f, items in st])
@@ -533,6 +577,7 @@ def run_impl_rt(cap, ops):
 
 def rt_traces(ctx, n, maxlen):
     cases = []
+    hcases = []      # the same traces against the POINTER-LEVEL report-type model (LfuAuxModel.hset_rt)
     for i in range(n):
         cap, ops = gen_random_rt(ctx.rng, maxlen)
         outs, states, err, flags = run_impl_rt(cap, ops)
@@ -545,6 +590,9 @@ def rt_traces(ctx, n, maxlen):
         if err:
             ctx.fail({"capacity": cap, "rt_ops": ops, "error": err}, "LFUCache with report types deviates from a bounded LFU map: " + err)
         cops = coq_rops(ops)
+        if len(run_impl_rt.gcodes) == len(ops) and (ctx.thorough or i < 60):
+            hcases.append(("rt_heap_sx %d %s" % (cap, cops), [outs, list(run_impl_rt.gcodes), list(run_impl_rt.graph)],
+                           {"capacity": cap, "rt_ops": ops, "what": "pointer graph (contents as checksums) of the real objects after every step vs heap model"}))
         cases.append(("rt_outs_sx %d %s" % (cap, cops), [outs, states[-1] if states else []], {"capacity": cap, "rt_ops": ops}))
         for j in range(0, (len(ops) + 9) // 10):
             cases.append(("rt_states_sx %d %s %d" % (cap, cops, j), states[10 * j:10 * j + 10],
@@ -552,7 +600,176 @@ def rt_traces(ctx, n, maxlen):
         if i < 1:
             ctx.sample({"capacity": cap, "rt_ops": ops[:20], "outs": outs[:20]})
     ctx.coq_cases("lfu_rt_traces", "From DD Require Import Lfu.LfuModel Lfu.LfuRtModel Lfu.LfuRtShow.\nLocal Open Scope Z_scope.",
-                  cases, shard=30, label="report_type_traces")  # small shards: Sx.run_cases overflows the VM stack when a shard has ~100 mismatches
+                  cases, shard=30, label="report_type_traces")
+    ctx.coq_cases("lfu_rt_heap_traces", "From DD Require Import Lfu.LfuModel Lfu.LfuRtModel Lfu.LfuRtShow Lfu.LfuAuxModel Lfu.LfuAuxShow.\nLocal Open Scope Z_scope.",
+                  hcases, shard=20, label="report_type_pointer_graph_traces")  # small shards: Sx.run_cases overflows the VM stack when a shard has ~100 mismatches
+
+
+# ---- get_sorted_cache_keys / get_average_frequency / DummyLFU / arbitrary hashable keys ----
+
+def aux_observers(ctx, n, maxlen):
+    """get_sorted_cache_keys() and get_average_frequency() after EVERY step of random traces.
+    Inside the property (its observation point for the use counts): the (key, uses) pairs
+    reported are exactly those of the reference LFU.  Beyond the property's text, recorded as
+    EXTENSION "Stats" (never a violation): the exact ORDER (descending uses, ties in key-table
+    order - the reference's dict has the same insertion order: evicted keys leave, new keys
+    are appended, overwritten keys stay), the average, and the correspondence with
+    LfuAuxModel.v (h_sorted_keys / h_avg_freq on the heap model, evaluated in Coq)."""
+    from deepdiff.lfucache import LFUCache
+    from fractions import Fraction
+    from statistics import StatisticsError
+    cases = []
+    ext_fails = []
+
+    def observe(c):
+        ks = [[k, f] for k, f in c.get_sorted_cache_keys()]
+        try:
+            m = c.get_average_frequency()
+            fr = Fraction(m).limit_denominator(100000)
+            av = [fr.numerator, fr.denominator]
+        except StatisticsError:
+            av = "StatisticsError"
+        return [ks, av]
+    for i in range(n):
+        cap, ops = gen_random(ctx.rng, maxlen)
+        c = LFUCache(cap)
+        ref = RefLFU(cap)
+        steps = [observe(c)]
+        bad = ext_bad = None
+        for j, (kind, k, v) in enumerate(ops):
+            if kind == "get":
+                c.get(k); ref.get(k)
+            else:
+                c.set(k, value=v); ref.set(k, v)
+            o = observe(c)
+            steps.append(o)
+            want = sorted(([kk, e[1]] for kk, e in ref.d.items()), key=lambda x: -x[1])
+            if sorted(o[0]) != sorted(want) and bad is None:
+                bad = "step %d: get_sorted_cache_keys() reports (key, uses) %r, a bounded LFU map holds %r" % (j, o[0], want)
+            if o[0] != want and ext_bad is None:
+                ext_bad = "step %d: get_sorted_cache_keys() = %r, expected %r (descending uses, ties in key-table order)" % (j, o[0], want)
+            if ref.d:
+                fr = Fraction(sum(e[1] for e in ref.d.values()), len(ref.d))
+                if o[1] != [fr.numerator, fr.denominator] and ext_bad is None:
+                    ext_bad = "step %d: get_average_frequency() = %r, expected %r" % (j, o[1], fr)
+        ctx.seen(("aux", cap, tuple(ops)), nontrivial=len(ops) > 3)
+        ctx.count("aux:traces")
+        case = {"kind": "aux_observers", "capacity": cap, "ops": ops}
+        if bad:
+            ctx.fail(dict(case, error=bad), "the use counts reported by get_sorted_cache_keys deviate from a bounded LFU map: " + bad)
+        elif ext_bad:
+            ext_fails.append((dict(case, error=ext_bad), "LFUCache statistics: " + ext_bad))
+        cases.append(("aux_sx %d %s" % (cap, coq_ops(ops)), steps, case))
+    with ctx.extension("Stats"):
+        for cse, what in ext_fails[:20]:
+            ctx.fail(cse, what)
+        ctx.coq_cases("lfu_aux", "From DD Require Import Lfu.LfuModel Lfu.LfuShow Lfu.LfuHeapModel Lfu.LfuAuxModel Lfu.LfuAuxShow.\nLocal Open Scope Z_scope.",
+                      cases, shard=25, label="sorted_keys_and_average_frequency")
+
+
+class CollidingKey:
+    """value-equal instances are the same key; all instances share one hash bucket"""
+
+    def __init__(self, v):
+        self.v = v
+
+    def __hash__(self):
+        return 7
+
+    def __eq__(self, other):
+        return isinstance(other, CollidingKey) and other.v == self.v
+
+    def __repr__(self):
+        return "CollidingKey(%r)" % (self.v,)
+
+
+def key_pool():
+    return [1, 1.0, True, 0, -0.0, False, "a", b"a", "", ("t", 1), ("t", 1.0), (), None, frozenset({1, 2}), frozenset({2, 1}),
+            2 ** 70, -(2 ** 70), 1.5, float("inf"), "\u00e9", "e\u0301", CollidingKey(1), CollidingKey(2), CollidingKey(1), 7, int, len]
+
+
+def nonint_keys(ctx, n, maxlen):
+    """Arbitrary hashable keys (equal keys of different types such as 1 / 1.0 / True, strings,
+    bytes, tuples, frozensets, None, big ints, keys with colliding hashes): the cache behaves
+    as the MODEL does on the keys' equality classes (class index = first position of an equal
+    key in the pool); direct oracle: the reference LFU on the real keys."""
+    from deepdiff.lfucache import LFUCache
+    from deepdiff.helper import not_found
+    pool = key_pool()
+    ids = {}
+    for x in pool:
+        ids.setdefault(x, len(ids))
+    cases = []
+    for i in range(n):
+        nk = ctx.rng.choice([3, 5, 8, len(pool)])
+        keys = ctx.rng.sample(pool, nk)
+        cap = ctx.rng.randint(1, 6)
+        L = ctx.rng.randint(1, maxlen)
+        ops = []
+        for _ in range(L):
+            k = ctx.rng.choice(keys)
+            ops.append(("get", k, 0) if ctx.rng.random() < 0.45 else ("set", k, ctx.rng.randint(-3, 50)))
+        c = LFUCache(cap)
+        ref = RefLFU(cap)
+        outs, err, st = [], None, []
+        hit = ev = False
+        try:
+            for j, (kind, k, v) in enumerate(ops):
+                if kind == "get":
+                    r = c.get(k)
+                    out = None if r is not_found else r
+                    outs.append(out)
+                    exp = ref.get(k)
+                    hit = hit or out is not None
+                    if out != exp and err is None:
+                        err = "step %d: get(%r) returned %r, a bounded LFU map returns %r" % (j, k, out, exp)
+                else:
+                    ev = ev or (k not in ref.d and len(ref.d) >= cap)
+                    c.set(k, value=v)
+                    ref.set(k, v)
+                if (k in c) != (k in ref.d) and err is None:
+                    err = "step %d: __contains__(%r) disagrees with the content" % (j, k)
+            st = walk(c)
+        except Exception as e:
+            err = err or "%s: %s" % (type(e).__name__, e)
+        mops = [(kind, ids[k], v) for kind, k, v in ops]
+        ctx.seen(("nonint", cap, tuple(mops)), nontrivial=hit or ev)
+        ctx.count("keys:arbitrary_hashable_traces")
+        case = {"kind": "nonint_keys", "capacity": cap, "ops": [[kind, repr(k), v] for kind, k, v in ops], "ops_on_key_classes": mops}
+        if err:
+            ctx.fail(dict(case, error=err), "LFUCache with non-integer keys deviates from a bounded LFU map: " + err)
+        exp = [[("Some", o) if o is not None else None for o in outs],
+               [[f, [[ids[k], v] for k, v in items]] for f, items in st]]
+        cases.append(("SL (firstn 2 (match trace_sx %d %s with SL l => l | x => [x] end))" % (cap, coq_ops(mops)), exp, case))
+    ctx.coq_cases("lfu_nonint_keys", "From DD Require Import Lfu.LfuModel Lfu.LfuShow.\nLocal Open Scope Z_scope.", cases, shard=50,
+                  label="arbitrary_hashable_keys_vs_model")
+
+
+def dummy_lfu(ctx, n):
+    """DummyLFU (the cache used when caching is switched off): accepts any constructor arguments,
+    get and set do nothing and return None, nothing is ever contained (LfuAuxModel.dummy_step)."""
+    from deepdiff.lfucache import DummyLFU
+    pool = key_pool()
+    for i in range(n):
+        args = [(), (5,), (0,), ("x", None)][i % 4]
+        d = DummyLFU(*args, **({"capacity": 3} if i % 2 else {}))
+        bad = None
+        for _ in range(20):
+            k = ctx.rng.choice(pool)
+            if ctx.rng.random() < 0.5:
+                r = d.get(k)
+                what = "get(%r)" % (k,)
+            else:
+                r = d.set(k, value=ctx.rng.randint(0, 9)) if ctx.rng.random() < 0.5 else d.set(k, "values_changed", 1)
+                what = "set(%r, ...)" % (k,)
+            if r is not None:
+                bad = "%s returned %r" % (what, r)
+            if k in d:
+                bad = "%r in DummyLFU() is True" % (k,)
+        ctx.seen(("dummy", i), nontrivial=False)
+        ctx.count("dummy_lfu:instances")
+        if bad:
+            ctx.fail({"kind": "dummy_lfu", "error": bad}, "DummyLFU stores or returns something: " + bad)
 
 
 # ---- concurrency ------------------------------------------------------------
@@ -588,6 +805,10 @@ NODE_FIELDS = {"CacheNode": ("key", "content", "freq_node", "pre", "nxt"),
                "LFUCache": ("cache", "capacity", "freq_link_head")}
 
 
+# fields never written after the object is built: reading them without the lock cannot race
+IMMUTABLE_READS = ("LFUCache.capacity (read)", "CacheNode.key (read)", "FreqNode.freq (read)")
+
+
 class HeapMonitor:
     """Observes, on the real code, the hypothesis of the linearizability theorem
     (C18_conc_accesses_under_lock): EVERY access to the shared heap made by get / set -
@@ -605,13 +826,17 @@ class HeapMonitor:
         self.accesses = 0
         self.calls = 0
         self.outside = []
+        self.benign = []
         mon = self
 
         def seen(obj_lock, what):
             if getattr(mon.tl, "active", False):
                 mon.accesses += 1
                 if obj_lock is None or obj_lock.held_by != threading.get_ident():
-                    mon.outside.append(what)
+                    if what in IMMUTABLE_READS:
+                        mon.benign.append(what)      # a field that is never written after construction
+                    else:
+                        mon.outside.append(what)
 
         def recording(base, kind, lock_of):
             fields = NODE_FIELDS[kind]
@@ -699,10 +924,12 @@ def lock_monitor(ctx, nseq):
     DISCIPLINE["calls"] += mon.calls
     DISCIPLINE["heap_accesses_observed"] += mon.accesses
     DISCIPLINE["heap_accesses_outside_lock"] += len(mon.outside)
+    DISCIPLINE["reads_of_immutable_fields_outside_lock"] += len(mon.benign)
 
 
 # what the recording monitors saw in this run (written to the evidence by run())
-DISCIPLINE = {"calls": 0, "heap_accesses_observed": 0, "heap_accesses_outside_lock": 0, "calls_under_forced_overlap": 0}
+DISCIPLINE = {"calls": 0, "heap_accesses_observed": 0, "heap_accesses_outside_lock": 0, "reads_of_immutable_fields_outside_lock": 0,
+              "calls_under_forced_overlap": 0, "calls_under_thread_stress": 0}
 
 
 def threaded(ctx, rounds, nthreads=8, nops=4000):
@@ -712,26 +939,48 @@ def threaded(ctx, rounds, nthreads=8, nops=4000):
     try:
         for r in range(rounds):
             cap = ctx.rng.choice([1, 2, 3, 5])
-            c = LFUCache(cap)
+            # round 0 runs under the heap-access monitor: the lock discipline observed under real contention
+            mon = HeapMonitor() if r == 0 else None
+            if mon:
+                mon.__enter__()
+                c = mon.cache(cap, _RecLock())
+            else:
+                c = LFUCache(cap)
             errs = []
             seeds = [ctx.rng.randrange(1 << 30) for _ in range(nthreads)]
+            n_here = nops // 4 if mon else nops
 
             def work(seed):
                 rr = random.Random(seed)
                 try:
-                    for _ in range(nops):
+                    for _ in range(n_here):
                         k = rr.randrange(6)
-                        if rr.random() < 0.5:
+                        op = ("get", k, 0) if rr.random() < 0.5 else ("set", k, rr.randrange(100))
+                        if mon:
+                            mon.call(c, op)
+                        elif op[0] == "get":
                             c.get(k)
                         else:
-                            c.set(k, value=rr.randrange(100))
+                            c.set(k, value=op[2])
                 except Exception as e:
                     errs.append("%s: %s" % (type(e).__name__, e))
             ts = [threading.Thread(target=work, args=(s,)) for s in seeds]
-            for t in ts:
-                t.start()
-            for t in ts:
-                t.join()
+            try:
+                for t in ts:
+                    t.start()
+                for t in ts:
+                    t.join()
+            finally:
+                if mon:
+                    mon.__exit__()
+            if mon:
+                DISCIPLINE["calls"] += mon.calls
+                DISCIPLINE["calls_under_thread_stress"] += mon.calls
+                DISCIPLINE["heap_accesses_observed"] += mon.accesses
+                DISCIPLINE["heap_accesses_outside_lock"] += len(mon.outside)
+                DISCIPLINE["reads_of_immutable_fields_outside_lock"] += len(mon.benign)
+                if mon.outside:
+                    errs.append("heap access outside the lock: " + ", ".join(sorted(set(mon.outside))[:4]))
             try:
                 st = walk(c)
                 freqs = [f for f, _ in st]
@@ -954,6 +1203,7 @@ def forced_schedule_case(name, cap, prefix, ops1, ops2, mode, wait=0.15):
             res["errors"].append("a thread is still blocked after the release")
         res["log"] = [[w[0], list(w[1])] for w in lk.log if w is not None]
         res["outside"] = sorted(set(mon.outside))
+        res["benign"] = len(mon.benign)
         res["accesses"] = mon.accesses
         res["calls"] = mon.calls
     try:
@@ -988,6 +1238,7 @@ def forced_schedules(ctx, only=None):
         DISCIPLINE["calls_under_forced_overlap"] += len(ops1) + len(ops2)
         DISCIPLINE["heap_accesses_observed"] += r["accesses"]
         DISCIPLINE["heap_accesses_outside_lock"] += len(r["outside"])
+        DISCIPLINE["reads_of_immutable_fields_outside_lock"] += r["benign"]
         case = {"kind": "forced_schedule", "name": name, "capacity": cap, "prefix": prefix, "thread1": ops1, "thread2": ops2,
                 "parked": "thread 1 " + ("inside its first call, holding the lock" if mode == "inside" else "right before taking the lock in its first call"),
                 "lock_acquisition_order": r.get("log")}
@@ -1101,14 +1352,24 @@ def discipline_note(ctx):
     """hypothesis of C18_conc_linearizable as observed on lfucache.py in this run"""
     ctx.note("lock_discipline", dict(DISCIPLINE, meaning="heap accesses = reads/writes of CacheNode / FreqNode fields, of LFUCache.cache / "
                                      ".capacity / .freq_link_head and key-table operations made inside get/set calls; "
-                                     "outside_lock must be 0 (C18_conc_accesses_under_lock)"))
+                                     "heap_accesses_outside_lock must be 0 (C18_conc_accesses_under_lock); reads of fields that are never written after "
+                                     "construction (capacity, CacheNode.key, FreqNode.freq) are counted separately and are harmless"))
+
+
+ALL_MODEL_FILES = ("From DD Require Import Lfu.LfuModel Lfu.LfuShow Lfu.LfuHeapModel Lfu.LfuHeapShow Lfu.LfuRtModel Lfu.LfuRtShow "
+                   "Lfu.LfuAuxModel Lfu.LfuAuxShow Lfu.LfuConcModel Lfu.LfuConcShow.")
 
 
 def run(ctx):
+    ctx.ensure_built(ALL_MODEL_FILES)       # one make for every model file the streams import
     exhaustive(ctx, 3, 7 if ctx.thorough else 6)
     random_traces(ctx, 1500 if ctx.thorough else 300, 200)
     heap_traces(ctx, 800 if ctx.thorough else 160, 200 if ctx.thorough else 80)
     rt_traces(ctx, 1000 if ctx.thorough else 200, 60)
+    aux_observers(ctx, 400 if ctx.thorough else 80, 40)
+    nonint_keys(ctx, 600 if ctx.thorough else 120, 60)
+    with ctx.extension("DummyLFU"):         # not an LFU cache: outside the property's text
+        dummy_lfu(ctx, 40 if ctx.thorough else 8)
     lock_monitor(ctx, 300 if ctx.thorough else 60)
     threaded(ctx, 12 if ctx.thorough else 3)
     forced_overlap(ctx)
@@ -1131,6 +1392,9 @@ def replay(ctx, data):
     elif case.get("kind") == "linearizable_threads":
         forced_overlap(ctx)
         linearizable_threads(ctx, 5)
+    elif case.get("kind") in ("aux_observers", "nonint_keys", "dummy_lfu"):
+        aux_observers(ctx, 80, 40)
+        nonint_keys(ctx, 120, 60)
     elif "rt_ops" in case:
         ops = [tuple(o) for o in case["rt_ops"]]
         outs, states, err, _ = run_impl_rt(case["capacity"], ops)
